@@ -7,6 +7,26 @@
 use alloc::string::{ToString, String};
 use crate::config::SmartCalcConfig;
  
+/* Case mapping that keeps the byte offsets of the text: a character whose mapped form has another length stays as it is */
+pub fn map_case_keep_offsets(data: &str, to_upper: bool) -> String {
+    let mut result = String::with_capacity(data.len());
+    let mut buffer = String::new();
+
+    for ch in data.chars() {
+        buffer.clear();
+        match to_upper {
+            true => buffer.extend(ch.to_uppercase()),
+            false => buffer.extend(ch.to_lowercase())
+        };
+
+        match buffer.len() == ch.len_utf8() {
+            true => result.push_str(&buffer),
+            false => result.push(ch)
+        };
+    }
+    result
+}
+
 pub fn do_divition(left: f64, right: f64) -> f64 {
     let mut calculation = left / right;
     if calculation.is_infinite() || calculation.is_nan() {
